@@ -76,7 +76,20 @@ def select(pid, tier, undecided):
 
 
 def run(pid, only=None):
-    """-> list of dict(name, ok, detail, functions, replay, machinery)"""
+    """-> list of dict(name, ok, detail, functions, replay, machinery).  A failing stand-in is confirmed by a second,
+    separate run of that test alone; a test that fails once and passes on the retry is machinery trouble, not a violation."""
+    res = _run_once(pid, only)
+    out = []
+    for r in res:
+        if not r["ok"] and not r.get("machinery"):
+            again = [x for x in _run_once(pid, [r["name"]]) if x["name"] == r["name"]]
+            if not again or again[0]["ok"] or again[0].get("machinery"):
+                r = dict(r, machinery="stand-in %s failed once and did not fail again when re-run alone (first message: %s)" % (r["name"], (r.get("detail") or "")[:300]))
+        out.append(r)
+    return out
+
+
+def _run_once(pid, only=None):
     names = [t for t in tests_for(pid) if only is None or t in only]
     filt = "standin_" if only is None or len(names) != 1 else names[0]
     if not names:
